@@ -131,7 +131,8 @@ class SchemaLoaderDF(SchemaLoader):
                     continue
 
                 tag_entry = self._add_tag_entry(tag_entry, row_number, row)
-                if tag_entry:
+                # A placeholder is nobody's parent (its short name is that of the tag it sits under).
+                if tag_entry and not tag_entry.name.endswith("/#"):
                     known_parent_tags[tag_entry.short_tag_name] = tag_entry.name.split("/")
 
             if len(next_round_rows) == len(current_rows):
